@@ -788,6 +788,15 @@ func genC11(tier string, seed uint64) []*c11Case {
 	for i, sc := range c11CoScripts(tier, rng) {
 		cases = append(cases, &c11Case{op: "coalesce", script: sc, allowPartial: i%7 == 6})
 	}
+	// every other multi case: the calls' own contexts end after the request has been written and
+	// before the response is read (a caller that gave up): the response is decoded all the same
+	nm := 0
+	for _, c := range cases {
+		if c.kind == "multi" && (c.op == "frame" || c.op == "raw") {
+			c.lateCancel = nm%2 == 1
+			nm++
+		}
+	}
 	return c11OrderAlloc(cases, quick)
 }
 
